@@ -140,6 +140,11 @@ impl RelayMap {
 
     /// Extends this `RelayMap` with another one.
     pub fn extend(&self, other: &RelayMap) {
+        // `other` may be (a clone of) this very map and then shares its lock: extending a map
+        // with itself changes nothing, while taking both locks would deadlock.
+        if Arc::ptr_eq(&self.relays, &other.relays) {
+            return;
+        }
         let mut a = self.relays.write().expect("poisoned");
         let b = other.relays.read().expect("poisoned");
         a.extend(b.iter().map(|(a, b)| (a.clone(), b.clone())));
